@@ -59,7 +59,7 @@ def run_stock(repo, group, mons, timeout=600, select=None):
 
 
 QUICK_GROUPS = {'C01': ['invocation'], 'C02': ['invocation'], 'C06': ['invocation'], 'C07': ['invocation', 'requests'],
-                'C15': ['requests', 'invocation']}
+                'C14': ['requests', 'invocation'], 'C15': ['requests', 'invocation']}
 
 
 def stock_cases(tier, first_idx, pid):
@@ -106,7 +106,7 @@ if __name__ == '__main__':
     # diagnostic: python -m vf.stock <group> [monitors]   (tree from VERIF_REPO, default /repo)
     repo = os.environ.get('VERIF_REPO', '/repo')
     g = sys.argv[1]
-    mons = (sys.argv[2] if len(sys.argv) > 2 else 'C01,C02,C06,C07,C15').split(',')
+    mons = (sys.argv[2] if len(sys.argv) > 2 else 'C01,C02,C06,C07,C14,C15').split(',')
     recs, tail = run_stock(repo, g, mons)
     tot = {}
     for r in recs:
